@@ -49,11 +49,14 @@ TRUSTED_E3 = [
     "E3: parametricity in Value (token type substituted; extracted text only moves/clones/drops values)",
     "E3: EcoVec model Option<Rc<Vec<T>>> (is_unique <=> strong_count==1, make_mut clones when shared: documented ecow behaviour, not verified)",
     "E3: hostile-operand model of exec (IH-runtime); hash_start as an arbitrary fixed function; enumerated concrete sizes as listed per obligation",
+    "E3 arrmeth: std HashMap/HashSet keyed by ArrayCmpSlice modelled as association lists under the key's == (sound iff Hash agrees with Eq: obligations C15.e1.*.eq_implies_hash_eq); rayon par_* run sequentially (stable); MapKeys an opaque token with Array::map / MapKeys::normalized assumed inverse; the interpreter reduced to 'a numeric scalar fill is present or absent'; ArrayFlags a hand model of the bitflags! type (same bit values)",
+    "E3 frames: Uiua::exec scripted (pops/pushes per script, may fail, may nest through the real call / fill-scope functions); Runtime's container and system types replaced by stand-ins that the code under contract never inspects; memo table as a fixed-capacity association list",
+    "E3 lexargs / lexsplit: the lexer's character source reduced to a script over the character classes the extracted code distinguishes",
 ]
 
 MANIFEST_TEXT = {
     "C02": {"technique": "Verus contracts on extracted checker/interpreter arms + Kani function contracts on Signature",
-            "text": "Inductive step per node kind: if operands obey their signatures then the composite obeys the signature the checker computes, for all operand signatures and all stack depths (Verus, unbounded, modulo listed IH assumptions); Signature algebra complete under Kani; stack helpers bounded under Kani.",
+            "text": "Inductive step per node kind: if operands obey their signatures then the composite obeys the signature the checker computes, for all operand signatures and all stack depths (Verus, unbounded, modulo listed IH assumptions); base case for 262 leaf-shaped arms of run_prim_func / run_sys_op / ImplPrimitive::run against the real definitions tables; Signature algebra complete under Kani; stack helpers, call frames and the memo arm bounded under Kani.",
             "note": "IH for operand execution assumed; structural induction over Node not mechanised; iterating modifiers' run-time halves and irregular leaves undecided"},
     "C03": {"technique": "Kani contracts on Signature::inverse/anti and on scalar inverse kernel pairs; Verus on SigNode::un_inverse",
             "text": "Mirror/dual signatures for all signatures; scalar inverse pairs exact on the integer domain (complete, loop-free full-domain Kani harnesses).",
@@ -61,33 +64,33 @@ MANIFEST_TEXT = {
     "C04": {"technique": "Kani on extracted context-stack instructions; Verus on exec_clean_stack",
             "text": "Context-stack instructions and rollback leave no residue: contents bounded (Kani, concrete sizes), heights unbounded (Verus).",
             "note": "does not decide that the ~90 do/undo templates are balanced or that undo primitives restore the data"},
-    "C05": {"technique": "Kani contracts on ArrayFlags, sort kernels, mark helpers",
-            "text": "Flag algebra complete; sort kernels sorted+permutation+pointer-safe on bounded sizes; mark helpers only clear / permute marks truthfully.",
+    "C05": {"technique": "Kani contracts on ArrayFlags, sort kernels, mark helpers, extracted array methods with the crate's own validator",
+            "text": "Flag algebra complete; sort kernels sorted+permutation+pointer-safe on bounded sizes; mark helpers only clear / permute marks truthfully; reverse / transpose / deduplicate / first / last leave well-formed, truthfully marked arrays on enumerated shapes.",
             "note": "env-level primitives that propagate marks are undecided"},
     "C06": {"technique": "Kani contracts: byte kernel == float kernel on the converted argument; copy-on-write contracts on extracted cowslice.rs",
-            "text": "Every scalar kernel variant (byte/bool) equals the float kernel on converted arguments for all inputs (complete); CowSlice mutators never touch another handle's view and ignore window/uniqueness (bounded sizes).",
+            "text": "Every scalar kernel variant (byte/bool) equals the float kernel on converted arguments for all inputs (complete); CowSlice mutators never touch another handle's view and ignore window/uniqueness (bounded sizes); the mark shortcuts of the index / grade / classify family change no result (bounded shapes).",
             "note": "Value-level byte/float dispatch and fast-path selection undecided; EcoVec modelled"},
     "C07": {"technique": "Verus content-level contracts on extracted routing arms of run_prim_mod",
             "text": "Argument-routing modifiers equal their documented definitions for all operand signatures and stacks (Verus, unbounded, modulo IH); helper contracts bounded-checked under Kani.",
             "note": "the iterating half (rows/each/table/reduce/scan/fold/repeat/group/partition) is undecided"},
     "C08": {"technique": "Kani contracts: kernel == spec function written from the documentation",
-            "text": "Scalar semantics complete for all inputs; shape agreement and index arithmetic bounded by rank.",
-            "note": "primitives taking env (take/drop/select/…) undecided"},
+            "text": "Scalar semantics complete for all inputs; shape agreement and index arithmetic bounded by rank; reverse, transpose, first, last, rise/fall permutations, classify, deduplicate, unique, occurrences against reference definitions on enumerated shapes.",
+            "note": "primitives that use env for more than errors and fills (take/drop/select/…) undecided"},
     "C09": {"technique": "Kani implicit panic/overflow/bounds/pointer checks on every function under contract",
-            "text": "Carrier-level panic/UB freedom only: no panic, overflow, out-of-bounds or invalid pointer use inside the functions under contract (incl. the unsafe sort kernels).",
+            "text": "Carrier-level panic/UB freedom only: no panic, overflow, out-of-bounds or invalid pointer use inside the functions under contract (incl. the unsafe sort kernels, the lexer's span / column / subscript arithmetic, rotate amounts).",
             "note": "says nothing about whole inputs through lexer/parser/compiler/interpreter"},
-    "C11": {"technique": "Kani on extracted try_/exec_clean_stack with a hostile operand model; Verus on scoped-state helpers",
-            "text": "try hands the handler exactly the original arguments and context; scoped state restored on Ok and Err (heights unbounded under Verus; contents bounded under Kani).",
-            "note": "IH-runtime assumed for operands; run_asm session reset undecided"},
+    "C11": {"technique": "Kani on extracted try_/exec_clean_stack / call frames / fill scopes / run_asm reset with a hostile operand model; Verus on scoped-state helpers",
+            "text": "try hands the handler exactly the original arguments and context; call depth, fill, unfill and boundary stacks restored on Ok and Err through nested scopes; a failed run resets every scoped structure and keeps the session configuration (heights unbounded under Verus; contents bounded under Kani).",
+            "note": "IH-runtime assumed for operands; run_compiler's compiler rollback undecided"},
     "C15": {"technique": "Kani contracts on ArrayCmp/array_hash impls, ArrayCmpSlice, Array eq/cmp/hash",
             "text": "Equivalence/total-order/hash laws complete at element level for f64,u8,char,Complex and mixed u8/f64; rows and arrays on enumerated shapes (bounded).",
             "note": "rise/fall/classify themselves (rayon/SipHash) undecided; Boxed left out"},
-    "C16": {"technique": "Kani one-step inductive contracts on extracted map probe loops",
-            "text": "Probe loops of the key table against an association-list view: one-step induction over a full representation invariant, bounded capacity.",
-            "note": "row-operation maintenance and Value-level get undecided; hash_start abstracted as arbitrary fixed function"},
-    "C17": {"technique": "Kani full-domain contract on F64Rep conversions",
-            "text": "Special floats survive their serialised representation for all f64 bit patterns (complete).",
-            "note": "nearly all of the property (text format, NodeRep, serde) is undecided"},
+    "C16": {"technique": "Kani one-step inductive contracts on extracted map probe loops and row operations",
+            "text": "Probe loops and row operations (reverse, rotate, drop, take) of the key table against an association-list view: one-step induction over a full representation and numbering invariant, bounded capacity.",
+            "note": "join / couple / grow and the Value-level callers undecided; hash_start abstracted as arbitrary fixed function"},
+    "C17": {"technique": "Kani full-domain contract on F64Rep conversions; Kani on the extracted Array <-> ArrayRep conversions",
+            "text": "Special floats survive their serialised representation for all f64 bit patterns (complete); array -> representation -> array keeps shape, elements, label and map keys and comes back truthfully marked (bounded shapes).",
+            "note": "most of the property (text format, NodeRep, serde itself) is undecided"},
     "C19": {"technique": "Kani contracts on CodeSpan/Loc algebra and extracted Lexer::update_loc",
             "text": "Span algebra complete over all Loc values; location stepping for any char; split-identifier positions bounded.",
             "note": "lexer main loop, parser merges, LSP spans undecided"},
@@ -97,12 +100,12 @@ MANIFEST_TEXT = {
 }
 
 C09_QUICK_PREFIXES = [
-    "C05.e1.sort.",            # unsafe ptr::swap_nonoverlapping blocks of the sort kernels
+    "C05.e1.sort.insertion_sort", "C05.e1.sort.heap_sort",   # unsafe ptr::swap_nonoverlapping blocks of the sort kernels (partition: thorough)
     "C19.",                    # span arithmetic, update_loc, split-identifier columns (F6)
     "C08.e1.rotate.",          # rotate amount arithmetic (F10)
     "C08.e1.char_arith.", "C06.e1.add.byte_char", "C06.e1.sub.byte_char",   # char::from_u32 / casts
     "C02.e1.signature.", "C02.e2.sig.", "C02.e2.stack.", "C03.e1.signature.",  # u16 / i32 truncation and overflow
     "C07.e3.helper.rotate.3", "C11.e3.helper.remove_n.3", "C07.e3.helper.dup_values.3", "C07.e3.helper.copy_n_down.3",  # slice index / rotate preconditions
-    "C16.e3.map.remove_impl", "C16.e3.map.insert_impl", "C16.e3.map.get", "C16.e3.map.set_tombstones", "C16.e3.map.rotate", "C16.e3.map.drop",  # probe loops: index arithmetic, `*len -= 1`, `-by`
+    "C16.e3.map.remove_impl", "C16.e3.map.get", "C16.e3.map.set_tombstones", "C16.e3.map.rotate",  # probe loops: index arithmetic, `*len -= 1`, `-by`
     "C17.e1.", "C17.e3.load.", "C17.e3.rep.roundtrip.list3.", "C08.e3.transpose", "C08.e3.derive_new_shape", "C08.e3.pervade_dim", "C08.e3.reverse", "C08.e3.grade.rise_indices.list3", "C09.", "C11.e3.frames.reset", "C11.e3.frames.call_leaf.1_2",
 ]
